@@ -530,3 +530,9 @@ for w in ["u8", "u16", "u32", "u64", "u128"]:
       note="EVERY width in the quick tier on a one-byte probe: frame == plain ++ LE(bitwise reference CRC), round trip, any corruption of any checksum byte -> BadCrc, truncated checksum rejected")
 K("C01.K.variant_index", DEC, "verif_c04d::variant_index_contract", {"C01": "D", "C03": "D"}, fns=["postcard::de::deserializer::<impl EnumAccess for &mut Deserializer<F>>::variant_seed"],
   note="EVERY byte string <= 7: the variant index handed to serde, bytes consumed and error kind == varint(u32) wire-format decoder (indices >= 128, padded, u32::MAX)")
+
+K("C17.K.dyn.ser_leaf.f64", DS, "verif_dynser::leaf_f64", {"C17": "D"}, fns=["postcard_dyn::ser::ser_named_type (F64 arm)"], note="every finite f64: bytes == little-endian IEEE-754 pattern", **DYN)
+K("C17.K.dyn.de_leaf.floats", DD, "verif_dynde::leaf_floats", {"C17": "D"}, fns=["postcard_dyn::de::deserialize (F32, F64 arms)"],
+  note="every byte string <= 9: dynamic float decode == static decode for finite values, rejection only for non-finite / truncated", **DYN)
+K("C18.K.dyn.ser_total.string_json", DS, "verif_dynser::total_string_json", {"C18": "D"}, label="bounded(5 strings: empty, ASCII, 2-byte, two chars, 4-byte scalar)",
+  fns=["postcard_dyn::ser::ser_named_type (Char, String and scalar arms on string JSON)"], note="string JSON against Char / String / numeric kinds: result or error, never a panic", **DYN)
